@@ -337,10 +337,73 @@ def r04d(ctx):
            'cost function lookup does not use (type, vars(layer))', where(sf), nontrivial=False)
 
 
+def r04f(ctx):
+    """No stale hyper-parameter is priced.  For every PIT layer class, the constructor slots
+    that export() fills with a recomputed value (anything but the layer's own static
+    attribute: channels, kernel size, dilation, and ``groups`` on the depthwise path) are the
+    *searched* hyper-parameters.  A built-in cost function registered for that layer type
+    whose returned value depends on spec[<searched slot>] must find it overridden by
+    get_modified_vars; otherwise the discretised cost is computed from the static value while
+    the exported layer has the recomputed one."""
+    from ..util import bind_args
+    from .c01 import ctor_calls, find_export_submodule
+    repo, tf = ctx.repo, ctx.torch
+    specs = cost_specs(repo)
+    pit_specs = ('params', 'params_no_bias', 'ops', 'ops_no_bias', 'gap8_latency')
+    n = 0
+    for ci in pit_layer_classes(repo):
+        kind = layer_kind(ctx, ci)
+        exp = ci.methods.get('export')
+        gmv = ci.methods.get('get_modified_vars')
+        if exp is None or gmv is None or kind not in ('Conv1d', 'Conv2d', 'Linear'):
+            continue
+        sub = find_export_submodule(ctx, exp, ci)
+        searched: Dict[str, Term] = {}
+        for p in returning(paths(repo, exp)):
+            for e, t, cname in ctor_calls(p, (kind,)):
+                for pname, val in bind_args(t, tf.init_positional(cname)).items():
+                    if pname == 'bias':
+                        continue
+                    if val != ('attr', sub, pname):
+                        searched.setdefault(pname, val)
+        if not searched:
+            raise AnalysisError(f'R04f: {ci.name}.export fills no slot with a searched value')
+        overridden = set(written_by(ctx, gmv, is_vars_copy))
+        for sname in pit_specs:
+            si = specs.get(sname)
+            if si is None:
+                raise AnalysisError(f'R04f: cost spec {sname} not found')
+            for reg in si.regs:
+                if reg.layer_type.split('.')[-1] != kind:
+                    continue
+                sp = ('param', reg.fn.params[0])
+                used = set()
+                for p in returning(paths(repo, reg.fn)):
+                    for x in subterms(p.retval):
+                        if x[0] == 'sub' and x[1] == sp and x[2][0] == 'const':
+                            used.add(x[2][1])
+                n += 1
+                stale = sorted((used & set(searched)) - overridden)
+                ctx.ob('R04f', f'{ci.name} x {sname}[{reg.pattern}] prices no stale '
+                       f'hyper-parameter', not stale,
+                       f'value depends on {sorted(used & set(searched))}, all overridden' if not stale
+                       else f'{reg.fn.name} computes its result from spec{stale}, which '
+                       f'{ci.name}.get_modified_vars leaves at the static value although export() '
+                       f'builds the layer with {[short(searched[k], 50) for k in stale]}: after '
+                       f'pruning the cost is not the cost of the exported layer',
+                       where(reg.fn))
+    ctx.floor('R04f', 'layer class x registration pairs', n, 20)
+
+
 def run(ctx):
+    from .c06 import memo_rule
+    memo_rule(ctx, 'R04g', 'PIT._get_single_cost',
+              ctx.repo.cls('PIT').methods['_get_single_cost'], 1, 2)
+    r04f(ctx)
     r04a(ctx)
     r04b(ctx)
     r04c(ctx)
+    r04d(ctx)
     from .c12 import r12e
     r12e(ctx, 'R04e')       # unpruned continuous size = original size
     ctx.assume('nn.Module stores a missing bias as _parameters["bias"] = None')
